@@ -24,7 +24,7 @@ Section ArrayArrives.
 
   Lemma expand_items (l more : list (tok (T:=T))) m :
     items l m -> forall e acc c, acc <> [] -> Z.of_nat (List.length acc + m) = e ->
-    exists vals, expand (l ++ more)%list (Some e) acc c = XOk vals (c + List.length l).
+    exists vals, expand S (l ++ more)%list (Some e) acc c = XOk vals (c + List.length l).
   Proof.
     induction 1 as [|t n l m Ht Hl IH]; intros e acc c Hacc Hlen.
     - exists acc. simpl List.length in *. rewrite Nat.add_0_r in *.
@@ -62,7 +62,7 @@ Section ArrayArrives.
      nR and nJ, filling the ranges exactly, is consumed exactly *)
   Lemma expand_array t0 (l more : list (tok (T:=T))) m e :
     plain t0 -> items l m -> Z.of_nat (1 + m) = e ->
-    exists vals, expand (t0 :: l ++ more)%list (Some e) [] 0 = XOk vals (Datatypes.S (List.length l)).
+    exists vals, expand S (t0 :: l ++ more)%list (Some e) [] 0 = XOk vals (Datatypes.S (List.length l)).
   Proof.
     intros [ch [H1 [H2 [H3 [H4 H5]]]]] Hl He.
     cbn [expand]. cbv zeta.
@@ -157,4 +157,99 @@ Proof.
   - apply arrives_fill_n_trnum.
   - intros. apply fill_params_consumes; assumption.
   - intros. apply fill_params_trnum; assumption.
+Qed.
+
+(* ---- arrays whose first entry is nJ or nR ---- *)
+Section FirstEntry.
+  Context {T : Type} (S : Scalar T).
+
+  (* nJ first: n default entries, then the array goes on *)
+  Lemma expand_array_jump t0 n0 (l more : list (tok (T:=T))) m e :
+    last_char (strip_ws (tsp t0)) = Some "j"%char ->
+    reps (strip_ws (tsp t0)) = Some (Z.of_nat n0) -> (1 <= n0)%nat ->
+    items l m -> Z.of_nat (n0 + m) = e ->
+    exists vals, expand S (t0 :: l ++ more)%list (Some e) [] 0 = XOk vals (Datatypes.S (List.length l)).
+  Proof.
+    intros H1 H2 Hn Hl He.
+    cbn [expand]. cbv zeta.
+    assert (Hr : reached (Some e) (@nil (option (T * Z))) = false).
+    { unfold reached. simpl. destruct (Z.ltb_spec 0 e); [reflexivity|lia]. }
+    rewrite Hr, H1. simpl Ascii.eqb. cbv iota. rewrite H2. simpl app.
+    destruct (expand_items S l more m Hl e (repeat None (Z.to_nat (Z.of_nat n0))) 1) as [vals Hv].
+    - destruct n0; [lia|]. rewrite Nat2Z.id. discriminate.
+    - rewrite repeat_length. lia.
+    - exists vals. rewrite Hv. reflexivity.
+  Qed.
+
+  (* nR first: there is nothing to repeat: result[-1] on an empty list, a bare
+     IndexError *)
+  Lemma expand_first_rep (t0 : tok (T:=T)) l e c n :
+    last_char (strip_ws (tsp t0)) = Some "r"%char -> reps (strip_ws (tsp t0)) = Some n ->
+    (0 < e)%Z -> expand S (t0 :: l) (Some e) [] c = XErr EIndex.
+  Proof.
+    intros H1 H2 He. cbn [expand]. cbv zeta.
+    assert (Hr : reached (Some e) (@nil (option (T * Z))) = false).
+    { unfold reached. simpl. destruct (Z.ltb_spec 0 e); [reflexivity|lia]. }
+    rewrite Hr, H1. simpl Ascii.eqb. cbv iota. rewrite H2. reflexivity.
+  Qed.
+
+  Theorem fill_array_first_rep_rejected star trs first rs t0 (more : list (tok (T:=T))) b n :
+    has_colon first = true -> forallb has_colon rs = true -> has_colon t0 = false ->
+    parse_ranges (map tsp (first :: rs)) = Ok b -> (0 < bounds_size b)%Z ->
+    last_char (strip_ws (tsp t0)) = Some "r"%char -> reps (strip_ws (tsp t0)) = Some n ->
+    parse_fill S star trs (first :: rs ++ t0 :: more)%list = Err EIndex.
+  Proof.
+    intros Hc Hrs Hc0 Hb Hpos H1 H2. unfold parse_fill. rewrite Hc.
+    assert (Hspan : span has_colon (rs ++ t0 :: more)%list = (rs, (t0 :: more)%list)).
+    { apply span_app; [exact Hrs|exact Hc0]. }
+    rewrite Hspan, Hb. cbn [bind].
+    rewrite (expand_first_rep t0 more (bounds_size b) 0 n H1 H2 Hpos). reflexivity.
+  Qed.
+
+  Lemma arrives_fill_array_jump trs e first rs t0 n0 l more b m n rest k :
+    prefix "imp" (tsp e) = false -> contains_sub "fill" (tsp e) = true ->
+    has_colon first = true -> forallb has_colon rs = true -> has_colon t0 = false ->
+    parse_ranges (map tsp (first :: rs)) = Ok b ->
+    last_char (strip_ws (tsp t0)) = Some "j"%char ->
+    reps (strip_ws (tsp t0)) = Some (Z.of_nat n0) -> (1 <= n0)%nat ->
+    items l m -> Z.of_nat (n0 + m) = bounds_size b ->
+    fill_params S true (contains_char "*" (tsp e)) trs more = Ok (n, rest) ->
+    exists k', arrives S trs (e :: first :: rs ++ t0 :: l ++ more)%list k rest k' 1.
+  Proof.
+    intros H1 H2 Hc Hrs Hc0 Hb Hj Hr Hn Hl Hsz Hfp.
+    destruct (expand_array_jump t0 n0 l more m (bounds_size b) Hj Hr Hn Hl Hsz) as [vals Hv].
+    assert (Hfr : exists fr, parse_fill S (contains_char "*" (tsp e)) trs (first :: rs ++ t0 :: l ++ more)%list = Ok (fr, rest)).
+    { unfold parse_fill. rewrite Hc.
+      assert (Hspan : span has_colon (rs ++ t0 :: l ++ more)%list = (rs, (t0 :: l ++ more)%list)).
+      { apply span_app; [exact Hrs|exact Hc0]. }
+      rewrite Hspan, Hb. cbn [bind]. rewrite Hv.
+      change (Datatypes.S (List.length l) =? 0)%nat with false. cbv iota.
+      assert (Hskip : skipn (Datatypes.S (List.length l)) (t0 :: l ++ more)%list = more).
+      { simpl. rewrite skipn_app, skipn_all, Nat.sub_diag. reflexivity. }
+      rewrite Hskip, Hfp. eexists. reflexivity. }
+    destruct Hfr as [fr Hfr].
+    eexists. eapply ar_turn; [|apply ar_here].
+    unfold kw_step. cbv zeta. rewrite H1, H2, Hfr. reflexivity.
+  Qed.
+End FirstEntry.
+
+Lemma p_C17_fill_array_first_entry : forall T (S : Scalar T) trs,
+  (forall star first rs t0 (more : list (tok (T:=T))) b n,
+     has_colon first = true -> forallb has_colon rs = true -> has_colon t0 = false ->
+     parse_ranges (map tsp (first :: rs)) = Ok b -> (0 < bounds_size b)%Z ->
+     last_char (strip_ws (tsp t0)) = Some "r"%char -> reps (strip_ws (tsp t0)) = Some n ->
+     parse_fill S star trs (first :: rs ++ t0 :: more)%list = Err EIndex) /\
+  (forall e first rs t0 n0 l more b m n rest k,
+     prefix "imp" (tsp e) = false -> contains_sub "fill" (tsp e) = true ->
+     has_colon first = true -> forallb has_colon rs = true -> has_colon t0 = false ->
+     parse_ranges (map tsp (first :: rs)) = Ok b ->
+     last_char (strip_ws (tsp t0)) = Some "j"%char ->
+     reps (strip_ws (tsp t0)) = Some (Z.of_nat n0) -> (1 <= n0)%nat ->
+     items l m -> Z.of_nat (n0 + m) = bounds_size b ->
+     fill_params S true (contains_char "*" (tsp e)) trs more = Ok (n, rest) ->
+     exists k', arrives S trs (e :: first :: rs ++ t0 :: l ++ more)%list k rest k' 1).
+Proof.
+  intros T S trs. split.
+  - intros. eapply fill_array_first_rep_rejected; eauto.
+  - apply arrives_fill_array_jump.
 Qed.
